@@ -24,7 +24,9 @@ def _run(pid):
     for s in specs:
         s["src"] = C.SRC
         s["bits"] = BITS
-    if pid == "C15":
+    if pid in ("C15", "C03"):
+        # C03's histories contain interrupted runs: the E1 model treats one as a run cut at some point, which needs the same fact --
+        # when run raises KeyboardInterrupt nothing (no call, no store write) is in flight any more
         # "the observer is exited after all other notifications, also when the run fails / is interrupted" needs: when run returns or
         # raises -- also on KeyboardInterrupt in the calling thread -- no worker is alive and nothing is running any more
         # (interrupt positions: everything except the start/append window of the known finding C17:interrupt-between-thread-start-and-append,
